@@ -107,6 +107,15 @@ def sweep():
         v = pt.ScratchVar()
         return pt.Seq(v.store(pt.Int(1)), g(v), f(v.load(), pt.Int(2)))
     out.append(("Subroutines by value / by reference", sub_prog))
+    # ABI values inside subroutines (frame cells under the frame-pointer convention: proto / dupn / frame_dig / frame_bury)
+    import c10
+    for what, build in c10.abi_frame_programs("quick", ns=(1, 2, 3, 4, 5)):
+        out.append((what, build))
+    import abiprog
+    for sig, t, v in (("(uint8,string,bool)", {"k": "tuple", "es": [{"k": "uint", "n": 8}, {"k": "string"}, {"k": "bool"}], "nm": ""}, [[3], [104, 105], 1]),
+                      ("uint16[3]", {"k": "sarray", "e": {"k": "uint", "n": 16}, "n": 3}, [[1], [2], [3]])):
+        for in_sub in (False, True):
+            out.append(("abi encode %s %s" % (sig, "sub" if in_sub else "main"), lambda t=t, v=v, in_sub=in_sub: abiprog.encode_program(t, v, in_sub)))
     return out
 
 
